@@ -145,10 +145,15 @@ static void fam_delta(int64_t iters) {
 static void fam_dstr(int64_t iters) {
     for (int64_t i = 0; i < iters; i++) { iter_begin(); int which = (int)vrng_below(&R, 2); int32_t count = (int32_t)rnd_count(); if (count > 5000) count = 5000; size_t n; uint8_t* in; size_t work_n = vrng_chance(&R, 1, 4) ? vrng_below(&R, 64) : 4096;
         if (i % 2 == 0) { int32_t nv = 1 + (int32_t)vrng_below(&R, 60); carquet_byte_array_t* a = v_exact((size_t)nv * sizeof *a); size_t tot = 0; for (int k = 0; k < nv; k++) { a[k].length = (int32_t)vrng_below(&R, 12); a[k].data = v_exact((size_t)a[k].length); for (int j = 0; j < a[k].length; j++) a[k].data[j] = (uint8_t)('a' + vrng_below(&R, 3)); tot += (size_t)a[k].length; } carquet_buffer_t b; carquet_buffer_init(&b); if (which) (void)carquet_delta_strings_encode(a, nv, &b); else (void)carquet_delta_length_encode(a, nv, &b); in = mutate(b.data, b.size, &n); if (vrng_chance(&R, 1, 2)) { count = nv; work_n = tot; } carquet_buffer_destroy(&b); for (int k = 0; k < nv; k++) free(a[k].data); free(a); }
+        else if (i % 8 == 3) { /* grammar: individually legal lengths whose sum wraps 32 bits to a small number, followed by just that many data bytes */
+            static const int32_t FAM[4][5] = {{0x60000000, 0x60000000, 0x40000000, 0, 0}, {0x7FFFFFFF, 0x7FFFFFFF, 2, 0, 0}, {0x40000000, 0x40000000, 0x40000000, 0x40000000, 0}, {0x7FFFFFF0, 0x7FFFFFF0, 0x10, 0x10, 0}}; int f = (int)vrng_below(&R, 4); int32_t lens[5]; int nl = f == 2 ? 5 : f == 3 ? 5 : 4; int r = (int)vrng_below(&R, 40); for (int q = 0; q < 5; q++) lens[q] = FAM[f][q]; lens[nl - 1] += r;
+            uint8_t tmp[256]; size_t w1 = 0, w0 = 0; uint8_t tmp0[64]; int32_t zeros[5] = {0, 0, 0, 0, 0}; carquet_status_t e1 = carquet_delta_encode_int32(lens, nl, tmp, sizeof tmp, &w1); carquet_status_t e0 = carquet_delta_encode_int32(zeros, nl, tmp0, sizeof tmp0, &w0); size_t extra = (size_t)r + vrng_below(&R, 8);
+            if (e1 != CARQUET_OK || e0 != CARQUET_OK) { in = random_bytes(&n); } else { n = (which ? w0 : 0) + w1 + extra; in = v_exact(n); size_t k2 = 0; if (which) { memcpy(in, tmp0, w0); k2 = w0; } memcpy(in + k2, tmp, w1); vrng_bytes(&R, in + k2 + w1, extra); count = nl; work_n = 4096; v_count("length_sums_wrapping_32_bits"); } }
         else in = random_bytes(&n);
         CUR = which ? "delta_strings_decode" : "delta_length_decode"; v_case(v_hash(in, n, (uint64_t)count * 2 + (uint64_t)which)); carquet_byte_array_t* out = v_exact((size_t)count * sizeof *out); uint8_t* work = v_exact(work_n); size_t used = 0;
         carquet_status_t st = which ? carquet_delta_strings_decode(in, n, out, count, work, work_n, &used) : carquet_delta_length_decode(in, n, out, count, &used);
-        if (st == CARQUET_OK) { v_count("ok_returns"); if (used > n) over("reported-size-exceeds-input", "count=%d used=%zu n=%zu", count, used, n); uint64_t acc = 0; for (int32_t k = 0; k < count; k++) { if (out[k].length < 0) { over("negative-length-returned", "k=%d", k); break; } for (int32_t j = 0; j < out[k].length; j++) acc += out[k].data[j]; } (void)acc; } else v_count("error_returns");
+        if (st == CARQUET_OK) { v_count("ok_returns"); if (used > n) over("reported-size-exceeds-input", "count=%d used=%zu n=%zu", count, used, n); uint64_t acc = 0; for (int32_t k = 0; k < count; k++) { if (out[k].length < 0) { over("negative-length-returned", "k=%d", k); break; } { const uint8_t* lo = which ? work : in; size_t span = which ? work_n : n; if (out[k].length > 0 && (out[k].data < lo || (size_t)out[k].length > span || (size_t)(out[k].data - lo) > span - (size_t)out[k].length) && !(which && out[k].data >= in && (size_t)(out[k].data - in) + (size_t)out[k].length <= n)) { over("value-outside-input-and-work-buffer", "k=%d length=%d", k, out[k].length); break; } }
+            if (out[k].length > 4096) { acc += out[k].data[0]; acc += out[k].data[out[k].length / 2]; acc += out[k].data[out[k].length - 1]; /* a value that large cannot lie inside the input: its ends are enough to show it */ } else for (int32_t j = 0; j < out[k].length; j++) acc += out[k].data[j]; } (void)acc; } else v_count("error_returns");
         free(work); free(out); free(in); leak_check(i); }
 }
 
